@@ -344,3 +344,15 @@ def depends_on(f, expr, name, depth=3):
                         depends_on(f, defs[0].value, name, depth - 1):
                     return True
     return False
+
+
+def psrc(f, node, canon=('self', 'other')):
+    """Source of node with f's leading parameters renamed to canonical
+    names (position decides, not spelling)."""
+    import copy
+    m = dict(zip(f.params, canon))
+    n2 = copy.deepcopy(node)
+    for x in ast.walk(n2):
+        if isinstance(x, ast.Name) and x.id in m:
+            x.id = m[x.id]
+    return ast.unparse(n2)
